@@ -516,9 +516,9 @@ End Alloc.
 Definition write_post (s : st) (m : amap) (i : N) (d : list N) (s' : st) (ws : list wr) (r : wres) : Prop :=
   match r with
   | WOk => R s' (aupd m i d) /\ Forall (safe_for s i) ws /\ log_ok ws /\ img s' = rev ws ++ img s
-           /\ lenN d + 4 <= 255 * 4096
+           /\ lenN d + 4 <= 255 * 4096 /\ hwm s' <= hwm s + 255
   | WTooLarge => s' = s /\ ws = [] /\ 255 * 4096 < lenN d + 4
-  | WOutside => s' = s /\ ws = []
+  | WOutside => s' = s /\ ws = [] /\ sector_limit <= hwm s + 255
   end.
 
 Theorem write_correct s m x z d now s' ws r :
@@ -530,7 +530,7 @@ Proof.
   set (i := idx x z) in *. set (o := getN (offs s) i). set (need := (lenN d + 4 + 4095) / 4096).
   destruct (need_bounds d) as (N1 & N2 & N3). fold need in N1, N2, N3.
   destruct (N.leb_spec 256 need) as [Hbig|Hsmall].
-  { intros E. inversion E; subst. cbn. repeat split; auto. lia. }
+  { intros E. inversion E; subst. cbn [write_post]. repeat split; auto. lia. }
   destruct (negb (sec_of o =? 0) && (cnt_of o =? need)) eqn:Einp.
   - (* in place *)
     intros E. inversion E; subst s' ws r. clear E.
@@ -539,7 +539,7 @@ Proof.
     apply N.eqb_eq in E2.
     destruct (write_inplace s m i d HR Hi Hsec E2) as [A B].
     cbn. split; [exact A|]. split; [exact B|]. split; [apply Forall_2; apply mkwr_ok|].
-    split; [reflexivity|lia].
+    split; [reflexivity|]. split; lia.
   - (* allocate *)
     set (u1 := mark (used s) (sec_of o) (N.to_nat (cnt_of o)) false).
     assert (HE : forall k, hwm s <= k -> getB u1 k = false).
@@ -550,11 +550,11 @@ Proof.
                 ltac:(lia) ltac:(lia) ltac:(intros j Hj; lia) ltac:(lia)) as (n' & Hfs & Hfree & _ & Hn').
     rewrite Hfs.
     destruct (N.leb_spec sector_limit (n' + need)) as [Hout|Hin].
-    { intros E. inversion E; subst. cbn. auto. }
+    { intros E. inversion E; subst. cbn [write_post]. repeat split; auto. lia. }
     intros E. inversion E; subst s' ws r. clear E.
     cbn. split; [apply (alloc_R s m i d now n' HR Hi Hsmall Hfree Hin)|].
     split; [apply (alloc_safe s m i d now n' HR Hi Hsmall Hfree Hin)|].
-    split; [apply Forall_4; apply mkwr_ok|]. split; [reflexivity|lia].
+    split; [apply Forall_4; apply mkwr_ok|]. split; [reflexivity|]. split; lia.
 Qed.
 
 (* ---------- padding ---------- *)
